@@ -80,7 +80,12 @@ def run(ctx):
         cs = set(comp)
         nodes = [m.nodes[i] for i in comp]
         local_defs = sorted({nice(db, n) for n in nodes if n["crate"] in LOCAL})
-        payload = [n for n in nodes if any(pm in n["inst"] for pm in PAYLOAD_MARKERS_IN(n))]
+        # std / compiler-generated code instantiated over the pair (Clone / PartialEq / drop glue of the aggregate): it
+        # cannot tell car from cdr.  The crates' own functions that merely carry the type as a generic argument
+        # (`parse_list_with::<[SpanInfo; 2]>`) are judged by rule (ii) on what they pass on.
+        payload = [n for n in nodes if any(pm in n["inst"] for pm in PAYLOAD_MARKERS_IN(n))
+                   and (n["crate"] not in LOCAL or n["kind"] == "drop-glue" or lookup(db, n) is None
+                        or getattr(lookup(db, n), "derived", False))]
         label = ", ".join(local_defs[:4]) if local_defs else short_inst(nodes[0]["inst"])
         if payload:
             all_drop = all(n["kind"] == "drop-glue" or n["def"].endswith("as std::ops::Drop>::drop") for n in nodes)
